@@ -127,9 +127,13 @@ class C01(BindSpec):
     def streams(self, tier, seed):
         if tier == "quick":
             return [Stream("valid", "bind.valid", 2000, timeout=0.05), Stream("malformed", "bind.malformed", 1000, timeout=0.05),
-                    Stream("anydest", "bind.any", 400, timeout=0.05)]
+                    Stream("anydest", "bind.any", 400, timeout=0.05),
+                    Stream("utf8bulk", "bind.utf8bulk", 24, timeout=0.5),
+                    Stream("b64esc", "bind.b64esc", 400, timeout=0.05)]
         return [Stream("valid", "bind.valid", 90000, timeout=0.02), Stream("malformed", "bind.malformed", 40000, timeout=0.02),
-                Stream("anydest", "bind.any", 15000, timeout=0.02)]
+                Stream("anydest", "bind.any", 15000, timeout=0.02),
+                Stream("utf8bulk", "bind.utf8bulk", 600, timeout=0.5),
+                Stream("b64esc", "bind.b64esc", 15000, timeout=0.02)]
 
     # ------------------------------------------------------------ verdict
     def expected(self, cfg, s, m):
@@ -460,13 +464,23 @@ def m_string_opt_number_content(d, params):
     return False
 
 
-B64_STR_RE = re.compile(rb'"([A-Za-z0-9+/=]*)"')
+STR_LIT_RE = re.compile(rb'"(?:[^"\\]|\\.)*"')
+B64_TEXT_RE = re.compile(r"[A-Za-z0-9+/=]*\Z")
 
 
 def _bad_padding(doc):
-    """some string literal of the document is base64 text with wrong length / padding"""
-    for t in B64_STR_RE.findall(doc):
-        if t and (len(t) % 4 != 0 or (b"=" in t.rstrip(b"=")) or len(t) - len(t.rstrip(b"=")) > 2):
+    """some string literal of the document is, once unquoted and stripped of line breaks (which
+    encoding/base64 skips), base64 text with a wrong length or misplaced padding"""
+    import json as _json
+    for lit in STR_LIT_RE.findall(doc):
+        try:
+            t = _json.loads(lit.decode("utf-8", "replace"))
+        except ValueError:
+            continue
+        t = t.replace("\r", "").replace("\n", "")
+        if not t or not B64_TEXT_RE.match(t):
+            continue
+        if len(t) % 4 != 0 or ("=" in t.rstrip("=")) or len(t) - len(t.rstrip("=")) > 2:
             return True
     return False
 
@@ -481,7 +495,7 @@ def m_base64_padding(d, params):
         return False
     for e in _envs(d):
         s = _side(d, e)
-        if _is_jit(e) and s.get("sonic") == "ok" and s.get("ref") in ("other", "mismatch"):
+        if _is_jit(e) and s.get("sonic") == "ok" and s.get("ref") not in (None, "ok"):
             return True
     return False
 
